@@ -29,7 +29,7 @@ LOADS = {"i32.load": 4, "i32.load8_s": 1, "i32.load8_u": 1, "i32.load16_s": 2, "
          "i64.load32_s": 4, "i64.load32_u": 4}
 STORES = {"i32.store": 4, "i32.store8": 1, "i32.store16": 2, "i64.store": 8, "i64.store8": 1, "i64.store16": 2,
           "i64.store32": 4}
-DATA = bytes(range(0xF0, 0x100)) + bytes(range(1, 17))          # 32 bytes at address 8
+DATA = bytes([0xF1, 0x82, 0x03, 0x74, 0x85, 0xF6, 0x07, 0x98])          # 8 bytes at address 8
 
 
 def num_names():
